@@ -390,6 +390,8 @@ def main(pid, tier, seed):
             pws = make_list(rng, pool, with_ew=(pool == 'ascii'))
             if not all(pw.encode('utf-8', 'ignore').decode('utf-8') == pw for pw in pws):
                 continue
+            # (whatever the detectors decide for these must not depend on the process that runs them)
+            pws = list(pws) + ['joe@mail.org.net', 'sam@corp.uk.ca7', 'anna@web.de.fr', 'www.site.com.org', 'joe@mail.org.net']
             tf = os.path.join(cwork, 'list%d.txt' % li)
             with open(tf, 'wb') as f:
                 for pw in pws:
